@@ -19,6 +19,8 @@ from props.common import U, mkgeom, recording
 ID = "C13"
 FN = "group_sound_events"
 RULE = (
+    "[representations] for n <= the pattern bound every graph is also run with a comparison function answering numpy.bool_ / int instead of bool, and with the "
+    "last list element being an equal-valued deep copy of an earlier one (graph over list positions, judged on values). "
     "every labelled undirected simple graph on n nodes (all 2^(n(n-1)/2) edge masks for each n in the bound), "
     "realised as n distinct sound events in input order and a symmetric comparison function that looks the "
     "unordered pair up in the edge set and records its calls; one call of group_sound_events per graph. "
